@@ -126,7 +126,7 @@ theorem innermost_ne_nil {st : List Rd} {r : Rd} (h : innermost st = some r) : s
 
 /-! ### the exhausted chain -/
 
-theorem next1_exhausted (r : Rd) (h1 : r.closed = true) (h2 : r.filo = []) (h3 : r.fifo = []) :
+theorem next1_exhausted_rf (r : Rd) (h1 : r.closed = true) (h2 : r.filo = []) (h3 : r.fifo = []) :
     next1 r = (.stop, r) := by
   obtain ⟨n, hn⟩ := nextRawFuel_pos r
   have hraw : nextRaw (nextRawFuel r) r = (.stop, r) := by
@@ -143,7 +143,7 @@ theorem getItem_exhausted (d : Nat) (fs : Fs) (st : List Rd) (h : exhausted st =
   | [], _ => rfl
   | [r], h =>
     simp only [exhausted, Bool.and_eq_true, List.isEmpty_iff] at h
-    simp only [nextChain, nextMain, next1_exhausted r h.1.1 h.1.2 h.2, errToStop]
+    simp only [nextChain, nextMain, next1_exhausted_rf r h.1.1 h.1.2 h.2, errToStop]
   | _ :: _ :: _, h => simp [exhausted] at h
 
 theorem Drains_exhausted (d : Nat) (fs : Fs) (st : List Rd) (h : exhausted st = true) :
